@@ -702,7 +702,6 @@ pub open spec fn nz(s: Seq<u32>) -> Seq<u32>
     decreases s.len()
 { if s.len() == 0 { Seq::empty() } else if s.last() != 0 { nz(s.drop_last()).push(s.last()) } else { nz(s.drop_last()) } }
 pub open spec fn strictly_increasing(s: Seq<u32>) -> bool { forall|i: int, j: int| 0 <= i < j < s.len() ==> s[i] < s[j] }
-pub open spec fn pairwise_distinct(s: Seq<u32>) -> bool { forall|i: int, j: int| 0 <= i < j < s.len() ==> s[i] != s[j] }
 pub proof fn lemma_lvl_pos(initial: int, k: nat)
     requires initial >= 0,
     ensures lvl(initial, k) >= 0, initial > 0 ==> lvl(initial, k) > 0,
@@ -746,60 +745,107 @@ pub proof fn lemma_nz_members(s: Seq<u32>)
     }
 }
 
-// Carve-out: the two `let zoom_sizes` statements.  Both iterator chains are DESUGARED by unit-local substitutions
-// into the loops they stand for (Take<Successors>::next: count down, take the pending item, compute ITS successor
-// eagerly, yield; Filter::next), with the closure bodies `Some(z * 4)` and `*z != 0` spliced in verbatim.
+pub open spec fn non_decreasing(s: Seq<u32>) -> bool { forall|i: int, j: int| 0 <= i <= j < s.len() ==> s[i] <= s[j] }
+/// dedup removes CONSECUTIVE repeats only
+pub open spec fn no_adjacent_repeat(s: Seq<u32>) -> bool { forall|i: int| 0 <= i < s.len() - 1 ==> (#[trigger] s[i]) != s[i + 1] }
+/// slice::sort_unstable on u32 -- ASSUMED std contract (no vstd spec): ascending, same members, same length.
+/// The last clause is a consequence of the first three for integers (a sorted rearrangement of a sorted sequence is
+/// that sequence); it is stated so that the automatic list needs no permutation reasoning.
+#[verifier::external_body]
+pub fn sort_unstable_u32(v: &mut Vec<u32>)
+    ensures non_decreasing(final(v)@), final(v)@.to_set() == old(v)@.to_set(), final(v)@.len() == old(v)@.len(),
+        non_decreasing(old(v)@) ==> final(v)@ == old(v)@,
+{ v.sort_unstable() }
+/// Vec::dedup on u32 -- ASSUMED std contract: removes exactly the elements equal to their predecessor: no adjacent
+/// repeat is left, same members, the survivors keep their order (ascending stays ascending), nothing to remove => unchanged.
+#[verifier::external_body]
+pub fn dedup_u32(v: &mut Vec<u32>)
+    ensures no_adjacent_repeat(final(v)@), final(v)@.to_set() == old(v)@.to_set(), final(v)@.len() <= old(v)@.len(),
+        non_decreasing(old(v)@) ==> non_decreasing(final(v)@),
+        no_adjacent_repeat(old(v)@) ==> final(v)@ == old(v)@,
+{ v.dedup() }
+pub proof fn lemma_strict(s: Seq<u32>)
+    requires non_decreasing(s), no_adjacent_repeat(s),
+    ensures strictly_increasing(s),
+{
+    assert forall|i: int, j: int| 0 <= i < j < s.len() implies s[i] < s[j] by {
+        assert(s[i] <= s[j - 1]);
+        assert(s[j - 1] != s[j] && s[j - 1] <= s[j]);
+    }
+}
+pub proof fn lemma_nz_set(s: Seq<u32>)
+    ensures forall|x: u32| #![trigger nz(s).contains(x)] nz(s).contains(x) <==> (x != 0 && s.contains(x)),
+    decreases s.len()
+{
+    if s.len() > 0 {
+        let d = s.drop_last();
+        lemma_nz_set(d);
+        assert forall|x: u32| #![trigger nz(s).contains(x)] nz(s).contains(x) <==> (x != 0 && s.contains(x)) by {
+            if s.contains(x) {
+                let j = choose|j: int| 0 <= j < s.len() && s[j] == x;
+                if j < s.len() - 1 { assert(d[j] == x); assert(d.contains(x)); }
+            }
+            if d.contains(x) { let j = choose|j: int| 0 <= j < d.len() && d[j] == x; assert(s[j] == x); }
+            assert(s[s.len() - 1] == s.last());
+            if s.last() != 0 {
+                let p = nz(d);
+                assert(p.push(s.last())[p.len() as int] == s.last());
+                if p.contains(x) { let a = choose|a: int| 0 <= a < p.len() && p[a] == x; assert(p.push(s.last())[a] == x); }
+                if nz(s).contains(x) { let a = choose|a: int| 0 <= a < nz(s).len() && nz(s)[a] == x; if a < p.len() { assert(p[a] == x); } }
+            }
+        }
+    }
+}
+
+// Carve-out: everything from the first `let zoom_sizes` statement up to (not including) `let zooms_map`.  Both
+// iterator chains are DESUGARED by unit-local substitutions into the loops they stand for (Take<Successors>::next:
+// count down, take the pending item, compute ITS successor eagerly, yield -- a `None` successor ends the list;
+// Filter::next), with the closure bodies `z.checked_mul(4)` and `*z != 0` spliced in verbatim.
 fn single_pass_zoom_sizes(options: &BBIWriteOptions) -> (r: Vec<u32>)
-    requires
-        
-        options.manual_zoom_sizes is None ==> lvl(options.initial_zoom_size as int, options.max_zooms as nat) <= u32::MAX,
-        
-        options.manual_zoom_sizes matches Some(z) ==> pairwise_distinct(nz(z@)),
     ensures
-        
-        pairwise_distinct(r@),
-        
-        options.manual_zoom_sizes matches Some(z) ==> r@ == nz(z@),
-        
-        options.manual_zoom_sizes is None && options.initial_zoom_size > 0 ==> r@.len() == options.max_zooms
-            && forall|k: int| 0 <= k < r@.len() ==> (#[trigger] r@[k]) as int == lvl(options.initial_zoom_size as int, k as nat),
-        
-        options.manual_zoom_sizes is None && options.initial_zoom_size == 0 ==> r@.len() == 0,
         
         forall|k: int| 0 <= k < r@.len() ==> (#[trigger] r@[k]) != 0,
         
-        options.manual_zoom_sizes is None ==> strictly_increasing(r@),
+        strictly_increasing(r@),
+        
+        options.manual_zoom_sizes matches Some(z) ==> forall|x: u32| #![trigger r@.contains(x)] r@.contains(x) <==> (x != 0 && z@.contains(x)),
+        
+        options.manual_zoom_sizes is None && options.initial_zoom_size > 0 ==> r@.len() <= options.max_zooms
+            && (forall|k: int| 0 <= k < r@.len() ==> (#[trigger] r@[k]) as int == lvl(options.initial_zoom_size as int, k as nat))
+            && (r@.len() == options.max_zooms || lvl(options.initial_zoom_size as int, r@.len()) > u32::MAX),
+        
+        options.manual_zoom_sizes is None && options.initial_zoom_size == 0 ==> r@.len() == 0,
 {
     let zoom_sizes: Vec<u32> = match &options.manual_zoom_sizes {
         Some(zooms) => zooms.clone(),
         None => { let mut out__: Vec<u32> = Vec::new(); let mut next__: Option<u32> = Some(options.initial_zoom_size); let mut left__: usize = options.max_zooms as usize;
             loop 
-                invariant
+                invariant_except_break
                     
                     left__ + out__@.len() == options.max_zooms,
-                    next__ matches Some(v) && v as int == lvl(options.initial_zoom_size as int, out__@.len()),
-                    lvl(options.initial_zoom_size as int, options.max_zooms as nat) <= u32::MAX,
+                invariant
+                    
+                    out__@.len() <= options.max_zooms,
+                    match next__ { Some(v) => v as int == lvl(options.initial_zoom_size as int, out__@.len()), None => lvl(options.initial_zoom_size as int, out__@.len()) > u32::MAX },
                     
                     forall|k: int| 0 <= k < out__@.len() ==> (#[trigger] out__@[k]) as int == lvl(options.initial_zoom_size as int, k as nat),
                 ensures
                     
-                    left__ == 0,
+                    out__@.len() == options.max_zooms || (next__ is None),
                 decreases
                     
                     left__,
 {
                 if left__ == 0 { break; } left__ = left__ - 1;
                 let item__: u32 = match next__ { Some(v__) => v__, None => { break; } };
-
-                proof { lemma_lvl_mono(options.initial_zoom_size as int, (out__@.len() + 1) as nat, options.max_zooms as nat); }
-                next__ = { let z = &item__; Some(z * 4) };
+                next__ = { let z = &item__; z.checked_mul(4) };
                 out__.push(item__);
             }
             out__ },
     };
 
     let ghost raw__ = zoom_sizes@;
-let zoom_sizes: Vec<u32> = { let src__ = zoom_sizes; let mut out__: Vec<u32> = Vec::new(); let mut j__: usize = 0;
+let mut zoom_sizes: Vec<u32> = { let src__ = zoom_sizes; let mut out__: Vec<u32> = Vec::new(); let mut j__: usize = 0;
         while j__ < src__.len() 
             invariant
                 
@@ -820,19 +866,41 @@ let zoom_sizes: Vec<u32> = { let src__ = zoom_sizes; let mut out__: Vec<u32> = V
         }
         out__ };
 
+    let ghost f__ = zoom_sizes@;
     proof {
+        // what the filter hands to sort/dedup
         assert(raw__.subrange(0, raw__.len() as int) =~= raw__);
+        assert(f__ == nz(raw__));
         lemma_nz_members(raw__);
+        lemma_nz_set(raw__);
         if options.manual_zoom_sizes is None {
             let init = options.initial_zoom_size as int;
             if init > 0 {
                 assert forall|i: int| 0 <= i < raw__.len() implies raw__[i] != 0 by { lemma_lvl_mono(init, i as nat, i as nat); }
                 lemma_nz_identity(raw__);
                 assert forall|i: int, j: int| 0 <= i < j < raw__.len() implies raw__[i] < raw__[j] by { lemma_lvl_mono(init, i as nat, j as nat); }
+                assert(non_decreasing(f__));
+                assert(no_adjacent_repeat(f__));
             } else {
                 assert forall|i: int| 0 <= i < raw__.len() implies raw__[i] == 0 by { lemma_lvl_zero(i as nat); }
                 lemma_nz_all_zero(raw__);
             }
+        }
+    }
+    // One channel per level: the writer has a single slot per size, so a size given twice must not get two
+    sort_unstable_u32(&mut zoom_sizes);
+    dedup_u32(&mut zoom_sizes);
+
+    proof {
+        let fin = zoom_sizes@;
+        // sorted then de-duplicated = strictly increasing; membership is preserved by both steps
+        if non_decreasing(fin) && no_adjacent_repeat(fin) { lemma_strict(fin); }
+        assert forall|x: u32| #![trigger fin.contains(x)] fin.contains(x) <==> f__.contains(x) by {
+            assert(fin.to_set().contains(x) <==> f__.to_set().contains(x));
+        }
+        assert forall|k: int| 0 <= k < fin.len() implies (#[trigger] fin[k]) != 0 by {
+            assert(fin.contains(fin[k]));
+            assert(f__.contains(fin[k]));
         }
     }
     zoom_sizes
